@@ -640,10 +640,10 @@ Sites(d, split, alias) ==
     \cup {[k |-> "comp", i |-> i] : i \in 2..d}
     \cup {[k |-> "ext", i |-> i] : i \in {j \in 1..d : split[j] \in {"one", "chain", "multi"}}}
 
-ModSeqs(S, kinds) ==      \* subsets of at most 3 sites with an expression kind each, outermost first
+ModSeqs(S, kinds, maxn) ==      \* subsets of at most maxn sites with an expression kind each, outermost first
     UNION {{LET ss == SetToSortSeq(T, LAMBDA a, b : Rank(a) > Rank(b))
             IN  [j \in 1..Cardinality(T) |-> [k |-> ss[j].k, i |-> ss[j].i, e |-> f[j]]]
-            : f \in [1..Cardinality(T) -> kinds]} : T \in {U \in SUBSET S : Cardinality(U) \in 1..3}}
+            : f \in [1..Cardinality(T) -> kinds]} : T \in {U \in SUBSET S : Cardinality(U) \in 1..maxn}}
 
 (* C08 *)
 ModsFamily ==
@@ -652,7 +652,7 @@ ModsFamily ==
             {PV(d, 1, sm, 0, "lib", s, xt, 0, xp, "", FALSE, at, ms, FALSE, FALSE) :
                 sm \in (IF d >= 3 THEN BOOLEAN ELSE {FALSE}), xp \in {"", "parameter"},
                 at \in {"value", "start", "min", "max", "nominal", "fixed", "unit"},
-                ms \in ModSeqs(Sites(d, s, xt # "Real"), {"lit", "ref"})}
+                ms \in ModSeqs(Sites(d, s, xt # "Real"), {"lit", "ref"}, IF d >= 3 /\ ~Wide THEN 2 ELSE 3)}
             : s \in PlainSplits(d), xt \in {"Real", "aR", "aaR"}} : d \in 1..MaxDepth} :
         \* attribute kinds other than start / value are exercised on the plain shapes only
         /\ (v.attr \notin {"start", "value"} => v.xtype = "Real" /\ v.xpre = "" /\ ~v.same)
